@@ -70,3 +70,38 @@ fn k_dnm_rewrite_moves_values_to_rewritten_keys() {
     assert!(*r.get(Id::from(p[2])).unwrap() == xs[2]);
     kani::cover!(p[2] == 0);
 }
+
+// C20: DenseNatMap from (key, value) pairs: order independent, rejects gaps and duplicates
+// (bounded: 3 pairs, keys 0..=3; the accepting and the panicking direction are separate harnesses).
+fn any_pairs3() -> ([usize; 3], [u8; 3]) {
+    let k: [usize; 3] = kani::any();
+    kani::assume(k[0] < 4 && k[1] < 4 && k[2] < 4);
+    (k, kani::any())
+}
+fn is_perm3(k: &[usize; 3]) -> bool {
+    k[0] < 3 && k[1] < 3 && k[2] < 3 && k[0] != k[1] && k[0] != k[2] && k[1] != k[2]
+}
+
+#[kani::proof]
+#[kani::unwind(6)]
+fn k_dnm_from_pairs_accepts_permutations() {
+    let (k, v) = any_pairs3();
+    kani::assume(is_perm3(&k));
+    let m: DenseNatMap<usize, u8> = vec![(k[0], v[0]), (k[1], v[1]), (k[2], v[2])].into_iter().collect();
+    assert!(m.len() == 3);
+    assert!(*m.get(k[0]).unwrap() == v[0] && *m.get(k[1]).unwrap() == v[1] && *m.get(k[2]).unwrap() == v[2]);
+    kani::cover!(k[0] == 2 && k[1] == 0);
+}
+
+#[kani::proof]
+#[kani::unwind(6)]
+#[kani::should_panic]
+fn k_dnm_from_pairs_rejects_gaps_and_duplicates() {
+    let (k, v) = any_pairs3();
+    kani::assume(!is_perm3(&k));
+    let m: DenseNatMap<usize, u8> = vec![(k[0], v[0]), (k[1], v[1]), (k[2], v[2])].into_iter().collect();
+    let _ = m.len();
+    // `should_panic` only demands SOME panic; that EVERY non-permutation panics is the unreachability
+    // of this point: the driver requires this cover to be UNSATISFIABLE (harness flag must_panic)
+    kani::cover!(true, "from_iter returned for a key set with a gap or a duplicate");
+}
